@@ -1,3 +1,4 @@
+#include <limits>
 #include <symengine/printers/codegen.h>
 #include <symengine/constants.h>
 #include <symengine/mul.h>
@@ -199,8 +200,20 @@ void CodePrinter::bvisit(const Integer &x)
 {
     if (precision_ != CodePrinterPrecision::Double) {
         str_ = print_scalar_literal(mp_get_d(x.as_integer_class()));
-    } else {
+    } else if (mp_fits_slong_p(x.as_integer_class())) {
         StrPrinter::bvisit(x);
+    } else {
+        // No integer type of the target language holds the value: print
+        // the nearest-below double with enough digits to denote it exactly
+        std::ostringstream s;
+        s.precision(std::numeric_limits<double>::max_digits10);
+        s << mp_get_d(x.as_integer_class());
+        str_ = s.str();
+        if (str_.find('.') == std::string::npos
+            and str_.find('e') == std::string::npos
+            and str_.find('n') == std::string::npos) {
+            str_ += ".0";
+        }
     }
 }
 void CodePrinter::bvisit(const And &x)
